@@ -59,7 +59,7 @@ def run_ipm_tool(tool, data, a, b, fa, fb, scratch):
     """convert IPM bytes; returns output bytes"""
     if tool == 'mci_ipm_encode':
         out = io.BytesIO()
-        mci_ipm_encode.mci_ipm_encode(io.BytesIO(data), out_file=out, in_encoding=a, out_encoding=b, in_format=fa, out_format=fb,
+        mci_ipm_encode.mci_ipm_encode(io.BytesIO(data), out_file=out, in_encoding=codecs_.spell(a, len(data)), out_encoding=codecs_.spell(b, len(data) + 1), in_format=fa, out_format=fb,
                                       **({'debug': True} if zlib.crc32(data) % 4 == 1 else {}))
         return out.getvalue()
     src = os.path.join(scratch, 'in.ipm')
@@ -68,7 +68,7 @@ def run_ipm_tool(tool, data, a, b, fa, fb, scratch):
     if tool == 'mci_ipm_encode-cli':
         dst = os.path.join(scratch, 'out.ipm')
         with quiet():
-            argv = [src, '-o', dst, '--in-encoding', a, '--out-encoding', b, '--in-format', fa, '--out-format', fb] + opts(data)
+            argv = [src, '-o', dst, '--in-encoding', codecs_.spell(a, len(data)), '--out-encoding', codecs_.spell(b, len(data) + 1), '--in-format', fa, '--out-format', fb] + opts(data)
             mci_ipm_encode.cli_run(**vars(mci_ipm_encode.cli_parser().parse_args(argv)))   # what cli_entry does with sys.argv
     else:  # mideu convert
         args = ['convert', src, '-s', 'ebcdic' if a == 'cp500' else 'ascii'] + opts(data, '-d' if len(data) % 3 else '-v')
@@ -130,7 +130,7 @@ def check_ipm(tool, msgs, a, b, fa, fb, scratch):
 def run_param_tool(tool, data, a, b, fa, fb, scratch):
     if tool == 'mci_ipm_param_encode':
         out = io.BytesIO()
-        mci_ipm_param_encode.mci_ipm_param_encode(io.BytesIO(data), out, in_encoding=a, out_encoding=b, in_format=fa, out_format=fb,
+        mci_ipm_param_encode.mci_ipm_param_encode(io.BytesIO(data), out, in_encoding=codecs_.spell(a, len(data)), out_encoding=codecs_.spell(b, len(data) + 1), in_format=fa, out_format=fb,
                                                   **({'debug': True} if zlib.crc32(data) % 4 == 1 else {}))   # cli_run forwards its --debug like this
         return out.getvalue()
     src = os.path.join(scratch, 'in.par')
@@ -139,7 +139,7 @@ def run_param_tool(tool, data, a, b, fa, fb, scratch):
         f.write(data)
     if tool == 'mci_ipm_param_encode-cli':
         with quiet():
-            argv = [src, '-o', dst, '--in-encoding', a, '--out-encoding', b, '--in-format', fa, '--out-format', fb] + opts(data)
+            argv = [src, '-o', dst, '--in-encoding', codecs_.spell(a, len(data)), '--out-encoding', codecs_.spell(b, len(data) + 1), '--in-format', fa, '--out-format', fb] + opts(data)
             mci_ipm_param_encode.cli_run(**vars(mci_ipm_param_encode.cli_parser().parse_args(argv)))
     else:  # paramconv
         args = [src, '-o', dst, '-s', 'ebcdic' if a == 'cp500' else 'ascii'] + opts(data, '-d' if len(data) % 3 else '-v')
